@@ -6,9 +6,9 @@ WT=$1; PATCH=$2; DEMO=$3; shift 3; TESTS=${*:-tests}
 cd "$WT" || exit 9
 git checkout -q -- solvor rust 2>/dev/null
 export PYTHONPATH=$WT
-echo "--- clean demo:"; timeout 600 /venv/bin/python "$DEMO" > /tmp/vs_clean.log 2>&1; C=$?; tail -2 /tmp/vs_clean.log | cut -c1-200; echo "exit=$C"
+echo "--- clean demo:"; timeout 600 /venv/bin/python "$DEMO" > $WT/seed_out/vs_clean.log 2>&1; C=$?; tail -2 $WT/seed_out/vs_clean.log | cut -c1-200; echo "exit=$C"
 git apply "$PATCH" || { echo "PATCH DOES NOT APPLY"; exit 9; }
-echo "--- patched demo:"; timeout 600 /venv/bin/python "$DEMO" > /tmp/vs_patched.log 2>&1; P=$?; tail -3 /tmp/vs_patched.log | cut -c1-300; echo "exit=$P"
+echo "--- patched demo:"; timeout 600 /venv/bin/python "$DEMO" > $WT/seed_out/vs_patched.log 2>&1; P=$?; tail -3 $WT/seed_out/vs_patched.log | cut -c1-300; echo "exit=$P"
 echo "--- suite with patch:"; timeout 1500 /venv/bin/python -m pytest -q -p no:cacheprovider --no-cov -n 4 --timeout=600 --deselect tests/test_docs.py::test_mkdocs_builds $TESTS 2>&1 | tail -2
 git checkout -q -- solvor rust 2>/dev/null
 git status --short | grep -v seed_out | head -3
